@@ -35,7 +35,7 @@ out.append("3. **Independently seeded changes** (`seeded/<id>/`: `patch.diff`, d
            "and a private scratch worktree, and was asked for two changes that compile, pass the repository's unedited suite and break the property only under something specific "
            "(round 1: any such change; round 2: a prescribed hard kind - multi-step history, fault at one point, interleaving, cooperating edits, unusual boundary, stale/shared state; round 3: the same kinds, and the agent was told in general terms to assume a competent property-based suite - many small random inputs, reference and model oracles, single faults everywhere, short histories - and to aim at what such a suite still misses; still nothing from /verif; round 4: as round 3, plus a request to prefer helper code, rarely used entry points and DAGs written by other implementations; round 5: two new kinds - *scale* (only at production-like sizes, widths, counts) and *entrypoint* (only through a less common exported entry point, option or setting); round 6: free choice of kind, and the agent was given a detailed paraphrase of what the by then hardened suite covers, with the request to find a dimension or a conjunction it still misses; round 7: the same with the paraphrase brought up to date, plus a request to mention hazards noticed in the unchanged tree - which led to defects F16 .. F19 and a second known finding; round 8: as round 7 with the paraphrase brought up to date once more - no new defect came out of the agents' hazard notes; round 9: the same again - one hazard note led to defect F21; round 10 and 11: the same again, no new defect; round 12: the same; widening the harness for one of its changes exposed defect F22; round 13: the same, no new defect; round 14 and 15: the same, no new defect; round 16: the same - widening the harness for one of its changes exposed defect F24, and one hazard note became the fourth known finding, F23; round 17, 18 and 19: the same, no new defect). "
            "Each change was kept only after `tools/seedcheck.sh <dir> --suite` confirmed in a scratch worktree that it builds, that the suite passes with it, and that its demonstration fails with it and passes without it. "
-           "A final sweep (`seeded/diag_final.txt`) ran the quick check of the property each kept change of rounds 1-16 is kept for against that change once more, on the harness as it stood after round 16 and the repaired tree: all 632 are reported (four needed a second look: three patches applied but no longer built after the F24 repair changed a signature and were adapted; one concurrency change was missed while five sweeps shared the machine and caught when re-run alone). Further sweeps on the harness as it stood after round 20 (six at a time) did the same for the 150 kept changes of rounds 17-20 (`seeded/diag_r17_20.txt`) and the 196 of rounds 12-16 (`seeded/diag_r12_16.txt`): all 346 are reported; rounds 1-11 were not swept again on the round-20 harness for lack of time. " +
+           "A final sweep (`seeded/diag_final.txt`) ran the quick check of the property each kept change of rounds 1-16 is kept for against that change once more, on the harness as it stood after round 16 and the repaired tree: all 632 are reported (four needed a second look: three patches applied but no longer built after the F24 repair changed a signature and were adapted; one concurrency change was missed while five sweeps shared the machine and caught when re-run alone). Further sweeps on the harness as it stood after round 20 (six at a time) did the same for the 150 kept changes of rounds 17-20 (`seeded/diag_r17_20.txt`) and the 196 of rounds 12-16 (`seeded/diag_r12_16.txt`): all 346 are reported; so are the 119 of rounds 9-11 (`seeded/diag_r09_11.txt`); of the changes of rounds 1-8 (`seeded/diag_r01_08.txt`, eight at a time) one was no longer reported: C09k (a pooled scratch buffer used after it was handed back) is only disturbed when a goroutine is descheduled in the middle of an encode, which eight goroutines on sixteen idle processors never are - `TestC09_R_ConcurrentEncode` now runs 64 goroutines for 150000 encodes each and reported it three times out of three. " +
            "The tables give, per change, the checks (quick tier, seed 1) that report a violation when pointed at the changed tree - the property's own check first - and whether the change was missed when first tried.\n")
 for rnd, title in (("1", "Round 1"), ("2", "Round 2 (hard kinds)"), ("3", "Round 3 (hard kinds, aimed at the harness's blind spots)"), ("4", "Round 4 (fault-heavy kinds, helper code and rarely used entry points)"), ("5", "Round 5 (scale and entry-point kinds)"), ("6", "Round 6 (free kinds against a described, hardened suite)"), ("7", "Round 7 (as round 6; agents also reported hazards in the unchanged tree)"), ("8", "Round 8 (as round 7)"), ("9", "Round 9 (as round 7)"), ("10", "Round 10 (as round 7)"), ("11", "Round 11 (as round 7)"), ("12", "Round 12 (as round 7)"), ("13", "Round 13 (as round 7)"), ("14", "Round 14 (as round 7)"), ("15", "Round 15 (as round 7)"), ("16", "Round 16 (as round 7)"), ("17", "Round 17 (as round 7)"), ("18", "Round 18 (as round 7)"), ("19", "Round 19 (as round 7)"), ("20", "Round 20 (as round 7)")):
     mfile = os.path.join(V, "seeded/matrix_round%s.txt" % rnd)
